@@ -126,7 +126,10 @@ def make_harness(case, tier):
             ln = ctx.choice('len', 8)
             size = ctx.sym_int('size', 1, None)
             xs = [ctx.sym_val(f'x{i}') for i in range(ln)]
-            chunks = list(chunked(iter(xs), size))
+            import collections
+            form = ctx.choice('iterable', 4)
+            src = [iter(xs), list(xs), tuple(xs), collections.deque(xs)][form]
+            chunks = list(chunked(src, size))
             flat = [x for c in chunks for x in c]
             info = {'len': ln, 'size': size, 'chunk_lengths': [len(c) for c in chunks]}
             ctx.check_concrete(len(flat) == ln and all(a is b for a, b in zip(flat, xs)), 'chunked', dict(info, what='order'))
@@ -158,12 +161,13 @@ def make_harness(case, tier):
         threads = [1, 2, 3][ctx.choice('threads', 3)]
         out = [ctx.sym_val(f'o{i}') for i in range(n)]
         bad = ctx.choice('raises', n + 1) if n else 0      # index of the raising element, n = none
+        stopit = bad < n and ctx.flag('raises_StopIteration')
         calls = []
 
         def f(i):
             calls.append(i)
             if i == bad and bad < n:
-                raise Boom(i)
+                raise (StopIteration(i) if stopit else Boom(i))
             return out[i]
         kw = {}
         sort = True
@@ -179,8 +183,11 @@ def make_harness(case, tier):
         try:
             res = M.parallel_map(f, xs, threads=threads, **kw)
             outcome = 'ret'
-        except Boom as e:
+        except (Boom, StopIteration) as e:
             res, outcome = None, 'boom'
+        except RuntimeError as e:
+            # PEP 479: a StopIteration escaping a generator / coroutine frame surfaces as RuntimeError -- still an error
+            res, outcome = None, 'boom' if stopit else 'runtime-error'
         if bad < n:
             ctx.check_concrete(outcome == 'boom', 'exception-propagates', dict(info, outcome=outcome))
             ctx.check_concrete(len(calls) == len(set(calls)), 'exactly-once', dict(info, calls=calls))
